@@ -1,7 +1,25 @@
 import Driver.Common
-open Drv
+import KatdalModel.Model.DataSetGlue
+open Np Index Drv Glue
 
-/-- stub driver for C01: replaced when the property's model lands -/
-def step (_line : String) : String := "bad-op"
+/-- requests:
+    read <tmask> <fmask> <bmask> <k2>   -> per-axis source coordinates of d.vis[k2] (or E:..)
+    pad <mask> <storedLen>              -> dumps selected by the padded mask
+    labels <mask>                       -> nonzero -/
+def step (line : String) : String :=
+  match line.splitOn " " with
+  | ["read", t, f, b, k2] =>
+    match parseMask t, parseMask f, parseMask b, parseIxTuple k2 with
+    | some t, some f, some b, some k2 => showExcept showSels (readSel t f b k2)
+    | _, _, _, _ => "bad-op"
+  | ["pad", m, n] =>
+    match parseMask m, n.toNat? with
+    | some m, some n => showNatList (labelsOf (padTimeMask m n))
+    | _, _ => "bad-op"
+  | ["labels", m] =>
+    match parseMask m with
+    | some m => showNatList (labelsOf m)
+    | none => "bad-op"
+  | _ => "bad-op"
 
 def main : IO Unit := Drv.loop step
